@@ -302,6 +302,19 @@ func TestDrv_C01(t *testing.T) {
 			}
 		}
 	}
+	// almost flat ramps (the slope far below the rounding granularity of rate^2, down to the smallest float there is) and
+	// everyday slopes on very fast pacers: always taken, the arithmetic must not cancel
+	for _, c := range []struct {
+		start int
+		per   time.Duration
+		slope float64
+	}{{100, time.Second, -1e-12}, {100, time.Second, -1e-13}, {100, time.Second, 1e-13}, {100, time.Second, -5e-324}, {100, time.Second, 5e-324},
+		{7, 3 * time.Second, -1e-17}, {7, 3 * time.Second, 1e-17}, {1000000, time.Second, -1e-5}, {1000000, time.Second, 1e-5},
+		{100000, time.Second, -1e-3}, {1, time.Minute, -1e-20}} {
+		pl := linearLoop(c.start, c.per, c.slope)
+		pl.always = true
+		loops = append(loops, pl)
+	}
 	loops = append(loops, linearLoop(0, time.Second, 1), linearLoop(5, 0, 1), linearLoop(-1, time.Second, 1), linearLoop(1, -time.Second, 1))
 
 	n, take := 500, 5 // quick: every 5th loop (seed-dependent offset), 500 consultations
